@@ -16,7 +16,7 @@ class Fail(BaseException):
 
 
 class RecProblem(Problem):
-    def __init__(self, dim, lower, upper, kind=0, fail_at=None, exc=ValueError, fresh_holder=False):
+    def __init__(self, dim, lower, upper, kind=0, fail_at=None, exc=ValueError, fresh_holder=False, raw_bounds=False):
         super().__init__()
         self.name = "rec"
         self.dimension = dim
@@ -26,6 +26,9 @@ class RecProblem(Problem):
         self.floatVariableNames = np.array(["x%d" % i for i in range(dim)], dtype=str)
         self.lowerBoundOfFloatVariables = np.array(lower, dtype=np.double)
         self.upperBoundOfFloatVariables = np.array(upper, dtype=np.double)
+        if raw_bounds:          # bounds exactly as a user may write them: integer arrays / plain lists
+            self.lowerBoundOfFloatVariables = lower
+            self.upperBoundOfFloatVariables = upper
         self.kind, self.log, self.fail_at, self.exc, self.fresh_holder = kind, [], fail_at, exc, fresh_holder
         self.calls = 0
 
@@ -46,6 +49,10 @@ class RecProblem(Problem):
             return math.floor(3 * sum(y)) / 3.0
         if k == 6:
             return abs(y[0] - 0.37) ** 0.9
+        if k == 8:              # a wide shallow well and a narrow deep one (found late by the global search)
+            da = sum((v - 0.3) ** 2 for v in y)
+            db = sum((v - 0.7) ** 2 for v in y)
+            return -math.exp(-da / (2 * 0.25 ** 2)) - 3.0 * math.exp(-db / (2 * 0.07 ** 2))
         return -sum(abs(v) for v in y)
 
     def Calculate(self, point, functionValue):
@@ -246,7 +253,9 @@ def c06(req, out):
                     out.append(f)
                     return n
             p2 = RecProblem(N, lo, up, kind)
-            s2 = Solver(p2, SolverParameters(r=r, eps=0.05, itersLimit=60, evolventDensity=m))
+            # every documented parameter is exercised: a start point is given (inside the box, off the curve's grid)
+            sp = Point(np.array([lo[j] + 0.3137 * (up[j] - lo[j]) for j in range(N)], dtype=np.double), [])
+            s2 = Solver(p2, SolverParameters(r=r, eps=0.05, itersLimit=60, evolventDensity=m, startPoint=sp))
             quiet(s2.DoGlobalIteration, 5)
             quiet(s2.Solve)
             quiet(s2.Solve)
@@ -301,11 +310,15 @@ def c04(req, out):
 
 def c03(req, out):
     n = 0
-    for N, kind, eps, lim in ((1, 0, 0.01, 100), (2, 0, 0.05, 200), (1, 2, 0.5, 50), (2, 2, 0.5 ** 0.5, 50), (3, 0, 0.5 ** (1 / 3.0), 50),
-                              (1, 0, 0.01, 1), (1, 0, 0.01, 2), (1, 0, 2.0, 50), (2, 5, 0.02, 37), (1, 3, 1e-3, 25)):
+    # (N, objective, eps, budget, evolvent density); the last rows: accuracy finer than the evolvent grid, so that different
+    # curve points share one image
+    for N, kind, eps, lim, dens in ((1, 0, 0.01, 100, 10), (2, 0, 0.05, 200, 10), (1, 2, 0.5, 50, 10), (2, 2, 0.5 ** 0.5, 50, 10),
+                                    (3, 0, 0.5 ** (1 / 3.0), 50, 10), (1, 0, 0.01, 1, 10), (1, 0, 0.01, 2, 10), (1, 0, 2.0, 50, 10),
+                                    (2, 5, 0.02, 37, 10), (1, 3, 1e-3, 25, 10), (2, 0, 0.01, 300, 3), (2, 2, 0.01, 400, 4),
+                                    (3, 0, 0.02, 300, 2)):
         lo, up = boxes(N)[0]
         p = RecProblem(N, lo, up, kind)
-        s = Solver(p, SolverParameters(r=2.5, eps=eps, itersLimit=lim))
+        s = Solver(p, SolverParameters(r=2.5, eps=eps, itersLimit=lim, evolventDensity=dens))
         deltas = []
         m = s.method
         orig = m.CalculateIterationPoint
@@ -480,6 +493,47 @@ def c05(req, out):
             if not all(float(lo[j]) <= pt[j] <= float(up[j]) for j in range(N)) or val > glob_best or p.f(pt) != val:
                 out.append(dict(what="refined solution outside the box / worse than the best global trial / value differs from the "
                                      "objective at the returned point", point=pt, value=val, best_global=glob_best))
+                return n
+    # bounds exactly as users write them: integer arrays and plain lists (odd sums, so that the box centre is not an integer)
+    for N, lo, up in ((1, np.array([0]), np.array([3])), (2, np.array([0, 2]), np.array([1, 5])), (2, [0, 2], [1, 5]),
+                      (3, np.array([-1, 0, 2]), np.array([2, 1, 7]))):
+        for kind in (1, 0):
+            p = RecProblem(N, lo, up, kind, raw_bounds=True)
+            s = Solver(p, SolverParameters(r=2.5, eps=0.05, itersLimit=60, refineSolution=(kind == 1)))
+            sol, _ = quiet(s.Solve)
+            n += 1
+            for y, v in p.log:
+                if not all(float(lo[j]) - 1e-12 <= y[j] <= float(up[j]) + 1e-12 for j in range(N)):
+                    out.append(dict(what="objective evaluated outside the box (integer-typed bounds)", point=list(y),
+                                    lower=[float(t) for t in lo], upper=[float(t) for t in up], N=N, kind=kind,
+                                    bounds_type=type(lo).__name__))
+                    return n
+            pt = [float(t) for t in sol.bestTrials[0].point.floatVariables]
+            if not all(float(lo[j]) <= pt[j] <= float(up[j]) for j in range(N)):
+                out.append(dict(what="returned point outside the box (integer-typed bounds)", point=pt))
+                return n
+    # anytime use: a few global iterations, a short refinement, repeated (the incumbent may move to another basin in between)
+    for N in (1, 2):
+        p = RecProblem(N, [0.0] * N, [1.0] * N, 8)
+        s = Solver(p, SolverParameters(r=3.0, eps=0.001, itersLimit=1000))
+        phase_of = []
+        for rnd in range(12):
+            k0 = len(p.log)
+            quiet(s.DoGlobalIteration, 10)
+            phase_of += ["g"] * (len(p.log) - k0)
+            k0 = len(p.log)
+            quiet(s.DoLocalRefinement, 10)
+            phase_of += ["l"] * (len(p.log) - k0)
+            n += 1
+            sol = s.GetResults()
+            pt = [float(t) for t in sol.bestTrials[0].point.floatVariables]
+            val = float(sol.bestTrials[0].functionValues[0].value)
+            gbest = min(v for (y, v), ph in zip(p.log, phase_of) if ph == "g")
+            if any(not all(-1e-12 <= t <= 1 + 1e-12 for t in y) for y, _ in p.log) or not all(0 <= t <= 1 for t in pt) \
+                    or abs(val - p.f(pt)) > 1e-12 or val > gbest + 1e-12:
+                out.append(dict(what="repeated (global iterations, refinement): evaluation / result outside the box, reported value "
+                                     "differs from the objective at the returned point, or refinement returned a value worse "
+                                     "than the best global-phase trial", round=rnd, N=N, point=pt, value=val, best_global=gbest))
                 return n
     return n
 
